@@ -46,6 +46,10 @@ ERR = [
 TB_EDGES = [("mod", "g"), ("mod", "h1"), ("mod", "h2"), ("h1", "g"), ("h2", "g"), ("k", "h1"), ("k", "h2"), ("mod", "k")]
 TB_KINDS = [("indep", "def g(a=0):\n  return [].nope\n"), ("dep", "def g(a=0):\n  return a.nope\n"),
             ("call", "def need(a: int): pass\ndef g(a=0):\n  return need('s')\n")]
+# every call site passes an argument of a different type, so no call is served from the call cache and
+# every call path logs the callee's error with its own traceback
+TB_ARG = {("mod", "g"): "None", ("h1", "g"): "1", ("h2", "g"): "'s'", ("mod", "h1"): "1.5", ("k", "h1"): "b'x'",
+          ("mod", "h2"): "[1]", ("k", "h2"): "(1,)", ("mod", "k"): "{1}"}
 
 
 def traceback_programs(tier):
@@ -58,8 +62,8 @@ def traceback_programs(tier):
       body = gtext
       for fn in ("h1", "h2", "k"):
         callees = [b for a, b in es if a == fn]
-        body += "def %s():\n%s" % (fn, "".join("  %s()\n" % c for c in callees) or "  pass\n")
-      body += "".join("%s()\n" % b for a, b in es if a == "mod")
+        body += "def %s(b=0):\n%s" % (fn, "".join("  %s(%s)\n" % (c, TB_ARG[(fn, c)]) for c in callees) or "  pass\n")
+      body += "".join("%s(%s)\n" % (b, TB_ARG[(a, b)]) for a, b in es if a == "mod")
       out.append(("tb:%s:%d" % (kn, mask), body))
   return out
 
@@ -74,7 +78,7 @@ def programs(tier):
   out += [("pserr:%s/%s" % (c, t[0]), c03.render(c, (t[0],))) for c in ctxs for t in c03.TEMPLATES]
   # annotation x value programs (C02): dozens of errors whose messages print unions, Literals, classes
   anns = c02.annotations("quick")
-  anns = anns[::8] if tier == "quick" else anns
+  anns = (anns[::8] if tier == "quick" else anns) + c02.LITERAL_ANNOTATIONS
   out += [("c02:" + a, c02.build_program(a)[0]) for a in anns]
   # definition-rich programs (PS-def)
   dps = defspace.programs("quick" if tier == "quick" else "thorough")
@@ -168,11 +172,32 @@ def _triple(src, loader, opts):
 def _one(arg):
   src, loader, opts = arg
   pyi, errs, pk = _triple(src, loader, opts)
-  uniq_ok = len(set(errs)) == len(errs)
+  uniq_ok = len(set(errs)) == len(errs) and not _redundant(errs)
   return {"d": hashlib.sha1(json.dumps([pyi, errs, pk]).encode()).hexdigest()[:16],
           "pyi": hashlib.sha1(pyi.encode()).hexdigest()[:8],
           "err": hashlib.sha1(json.dumps(errs).encode()).hexdigest()[:8], "pk": pk[:8],
           "nerr": len(errs), "sorted": _sorted_by_line(errs), "unique": uniq_ok}
+
+
+_TB = "\nCalled from (traceback):\n"
+
+
+def _redundant(errs):
+  """Two reports of one error (same class, line and message) whose call tracebacks are comparable.
+
+  The report keeps one error per *incomparable* traceback; a report without a traceback, or whose
+  traceback is a tail of another report's traceback, makes the longer one a duplicate.
+  """
+  groups = {}
+  for name, line, msg in errs:
+    base, _, tb = msg.partition(_TB)
+    groups.setdefault((name, line, base), []).append([ln.strip() for ln in tb.split("\n") if ln.strip()])
+  for tbs in groups.values():
+    for i, a in enumerate(tbs):
+      for j, b in enumerate(tbs):
+        if i != j and (not a or (len(a) <= len(b) and b[len(b) - len(a):] == a)):
+          return True
+  return False
 
 
 def _sorted_by_line(errs):
